@@ -761,6 +761,7 @@ package valid
 
 //@ func (*validCommon).either
 //@   requires len(fieldInfos) >= 1
+//@   ensures [C02 C15 C17 group.shape] sb.nw(errBuf) > old(sb.nw(errBuf)) ==> suffixof(ErrEndFlag, sb.content(errBuf))
 //@   ensures [C17 either.single] len(fieldInfos) == 1 ==> sb.nw(errBuf) == old(sb.nw(errBuf)) + 1
 //@   ensures [C17 either.verdict] len(fieldInfos) >= 2 ==> ((sb.nw(errBuf) > old(sb.nw(errBuf))) <==> forall(j Int :: {fieldInfos[j]} 0 <= j && j < len(fieldInfos) ==> rv.isZero(fieldInfos[j].reflectVal)))
 //@   loop#0 invariant errBuf != nil && fieldInfoBuf != nil && fresh(fieldInfoBuf) && l == len(fieldInfos) && sb.nw(errBuf) == old(sb.nw(errBuf)) && sb.content(errBuf) == old(sb.content(errBuf))
@@ -772,6 +773,7 @@ package valid
 
 //@ func (*validCommon).bothEq
 //@   requires len(fieldInfos) >= 1
+//@   ensures [C02 C15 C17 group.shape] sb.nw(errBuf) > old(sb.nw(errBuf)) ==> suffixof(ErrEndFlag, sb.content(errBuf))
 //@   ensures [C17 botheq.single] len(fieldInfos) == 1 ==> sb.nw(errBuf) == old(sb.nw(errBuf)) + 1
 //@   ensures [C17 botheq.verdict] len(fieldInfos) >= 2 ==> ((sb.nw(errBuf) > old(sb.nw(errBuf))) <==> !forall(j Int :: {fieldInfos[j]} 1 <= j && j < len(fieldInfos) ==> deepEqual(rv.iface(fieldInfos[0].reflectVal), rv.iface(fieldInfos[j].reflectVal))))
 //@   loop#0 invariant errBuf != nil && fieldInfoBuf != nil && fresh(fieldInfoBuf) && l == len(fieldInfos) && sb.nw(errBuf) == old(sb.nw(errBuf)) && sb.content(errBuf) == old(sb.content(errBuf))
